@@ -649,4 +649,136 @@ theorem find?_of_nodup (L : List Entry) (hn : (L.map (·.name)).Nodup) {c : Entr
       have hb : (x.name == c.name) = false := by simpa using this
       rw [hb]; exact ih hn.2 hc
 
+/-! ### monotonicity: nothing visible is lost -/
+
+theorem fullAt_append (e : Entry) (P Q : NPath) :
+    fullAt e (P ++ Q) = (walk e P).bind fun x => fullAt x Q := by
+  simp only [fullAt, walk_append]
+  cases walk e P <;> simp
+
+/-- An update that cannot be seen below the node (not even in the error lists) cannot be seen at all. -/
+theorem fullAt_update_invisible {e x : Entry} {np : NPath} {q : Path} (h : Tracks e np q x) {g : Entry → Entry}
+    (hg : NamePres g) (hinv : ∀ r, fullAt (g x) r = fullAt x r) : ∀ P : NPath, fullAt (e.updateAt q g) P = fullAt e P := by
+  intro P
+  by_cases hP : np <+: P
+  · obtain ⟨r, rfl⟩ := hP
+    simp only [fullAt]
+    rw [walk_update_below h hg, walk_append, h.walk]
+    exact hinv r
+  · exact fullAt_update_off h hg P hP
+
+/-- `e'` extends `e`: every location of `e` exists in `e'` with the same data and at least the
+same errors. -/
+def Le (e e' : Entry) : Prop :=
+  ∀ P d, fullAt e P = some d → ∃ d', fullAt e' P = some d' ∧ nodeData d' = nodeData d ∧ ∀ er ∈ d.errors, er ∈ d'.errors
+
+theorem Le.refl (e : Entry) : Le e e := fun _ d h => ⟨d, h, rfl, fun _ h => h⟩
+
+theorem Le.trans {a b c : Entry} (h1 : Le a b) (h2 : Le b c) : Le a c := by
+  intro P d h
+  obtain ⟨d1, hd1, e1, m1⟩ := h1 P d h
+  obtain ⟨d2, hd2, e2, m2⟩ := h2 P d1 hd1
+  exact ⟨d2, hd2, e2.trans e1, fun er her => m2 er (m1 er her)⟩
+
+theorem Le.of_fullAt_eq {a b : Entry} (h : ∀ P, fullAt b P = fullAt a P) : Le a b :=
+  fun P d hd => ⟨d, by rw [h P]; exact hd, rfl, fun _ h => h⟩
+
+/-- Updating a tracked node by an extension extends the tree. -/
+theorem Le.update {e x : Entry} {np : NPath} {q : Path} (h : Tracks e np q x) {g : Entry → Entry}
+    (hg : NamePres g) (hx : Le x (g x)) : Le e (e.updateAt q g) := by
+  intro P d hd
+  by_cases hP : np <+: P
+  · obtain ⟨r, rfl⟩ := hP
+    have h1 : fullAt e (np ++ r) = fullAt x r := by rw [fullAt_append, h.walk]; rfl
+    have h2 : fullAt (e.updateAt q g) (np ++ r) = fullAt (g x) r := by
+      simp only [fullAt]; rw [walk_update_below h hg]
+    rw [h1] at hd
+    rw [h2]
+    exact hx r d hd
+  · exact ⟨d, by rw [fullAt_update_off h hg P hP]; exact hd, rfl, fun _ h => h⟩
+
+theorem Le.merge (e : Entry) (ns : Option String) (oe : Entry) : Le e (e.merge ns oe) := by
+  intro P d hd
+  cases P with
+  | nil =>
+    simp only [fullAt_nil, Option.some.injEq] at hd
+    subst hd
+    refine ⟨(e.merge ns oe).d, rfl, merge_sameData e ns oe, ?_⟩
+    intro er her
+    rw [merge_eq]
+    apply fold_mstep_errors_mono
+    simp [Entry.importErrors, Entry.addErrs, her]
+  | cons k r =>
+    simp only [fullAt] at hd ⊢
+    cases hw : walk e (k :: r) with
+    | none => simp [hw] at hd
+    | some x =>
+      rw [walk_merge_mono e ns oe k r hw]
+      rw [hw] at hd
+      exact ⟨d, hd, rfl, fun _ h => h⟩
+
+/-- `er` is recorded on a node that can be reached by names. -/
+def VisErr (e : Entry) (er : Err) : Prop := ∃ P d, fullAt e P = some d ∧ er ∈ d.errors
+
+theorem VisErr.mono {e e' : Entry} {er : Err} (h : VisErr e er) (hle : Le e e') : VisErr e' er := by
+  obtain ⟨P, d, hd, her⟩ := h
+  obtain ⟨d', hd', _, hm⟩ := hle P d hd
+  exact ⟨P, d', hd', hm er her⟩
+
+theorem implicitIO_walk_errors {e : Entry} {b : Bool} {P : NPath} {x : Entry} {er : Err}
+    (h : walk (implicitIO e b) P = some x) : er ∉ x.d.errors := by
+  cases P with
+  | nil => simp only [walk, Option.some.injEq] at h; subst h; simp [implicitIO]
+  | cons k r =>
+    simp only [walk] at h
+    have : kid (implicitIO e b) k = none := by simp [kid, implicitIO, Entry.child?]
+    simp [this] at h
+
+/-- A visible error is one of the tree's errors (what `GetErrors` sweeps). -/
+theorem VisErr.allErrors {e : Entry} {er : Err} (h : VisErr e er) : er ∈ e.allErrors := by
+  obtain ⟨P, d, hd, her⟩ := h
+  simp only [fullAt] at hd
+  cases hw : walk e P with
+  | none => simp [hw] at hd
+  | some x =>
+    simp only [hw, Option.map_some, Option.some.injEq] at hd
+    subst hd
+    induction P generalizing e with
+    | nil => simp only [walk, Option.some.injEq] at hw; subst hw; exact own_errors_sub _ her
+    | cons k r ih =>
+      simp only [walk] at hw
+      cases hk : kid e k with
+      | none => simp [hk] at hw
+      | some c =>
+        simp only [hk, Option.bind_some] at hw
+        unfold kid at hk
+        by_cases hr : e.d.isRpc = true
+        · simp only [hr, if_true] at hk
+          by_cases hi : (k == "input") = true
+          · simp only [hi, if_true, Option.some.injEq] at hk
+            cases hh : e.inp.head? with
+            | none =>
+              simp only [hh, Option.getD_none] at hk
+              subst hk
+              exact absurd her (implicitIO_walk_errors hw)
+            | some c0 =>
+              simp only [hh, Option.getD_some] at hk
+              subst hk
+              exact (mem_allErrors e).mpr (Or.inr (Or.inl ⟨c0, List.mem_of_mem_head? hh, ih hw⟩))
+          · simp only [hi, Bool.false_eq_true, if_false] at hk
+            by_cases ho : (k == "output") = true
+            · simp only [ho, if_true, Option.some.injEq] at hk
+              cases hh : e.out.head? with
+              | none =>
+                simp only [hh, Option.getD_none] at hk
+                subst hk
+                exact absurd her (implicitIO_walk_errors hw)
+              | some c0 =>
+                simp only [hh, Option.getD_some] at hk
+                subst hk
+                exact (mem_allErrors e).mpr (Or.inr (Or.inr (Or.inl ⟨c0, List.mem_of_mem_head? hh, ih hw⟩)))
+            · simp [ho] at hk
+        · simp only [hr, Bool.false_eq_true, if_false] at hk
+          exact (mem_allErrors e).mpr (Or.inl ⟨c, List.mem_of_find?_eq_some hk, ih hw⟩)
+
 end Goyang.Lemmas.AugmentTree
